@@ -59,6 +59,7 @@
 #define BOUND_MS 4000
 #define MS 1000000ULL
 #define LATE_NS (5 * MS)
+#define STICKY_MS 20 // timeout given ONCE to the aio that the reused-aio rounds keep re-submitting
 
 enum { K_CORRECT, K_DUP, K_STALE, K_OTHER, K_NOBIT, K_LATE, K_MID, K_ECHO, K_FAKE, K_HOP, K_N };
 static const char *kname[K_N] = { "correct", "dup", "stale", "other-ctx", "nobit", "late", "mid", "echo", "never-issued-id", "hop-before-id" };
@@ -72,10 +73,10 @@ static const char *srcname[SRC_N] = { "tcpadv", "xresp", "real" };
 enum { AK_NONE, AK_TCP, AK_XRESP };
 static const char *akname[3] = { "none", "tcpadv", "xresp" };
 
-enum { OP_COLLECT, OP_MIXED, OP_SUPERSEDE, OP_SENDOVER, OP_SENDOVER_DL, OP_ABORT, OP_QUICK, OP_PROBE, OP_N };
+enum { OP_COLLECT, OP_MIXED, OP_SUPERSEDE, OP_SENDOVER, OP_SENDOVER_DL, OP_ABORT, OP_QUICK, OP_PROBE, OP_REUSED, OP_N };
 enum { TM_EXPLICIT, TM_INHERIT, TM_DEFAULT, TM_N }; // where a context's survey time comes from
 static const char *tmname[TM_N] = { "set-per-survey", "inherited-from-socket", "default-1s" };
-static const char *opname[OP_N] = { "collect", "mixed-timeouts", "supersede", "send-over-recv", "send-over-recv-at-deadline", "abort", "quick", "probe" };
+static const char *opname[OP_N] = { "collect", "mixed-timeouts", "supersede", "send-over-recv", "send-over-recv-at-deadline", "abort", "quick", "probe", "reused-aio-timeout-set-once" };
 
 enum { DUE_NOW, DUE_REL, DUE_LATE, DUE_MID };
 
@@ -815,6 +816,8 @@ typedef struct cthr {
 	vf_rng         rng;
 	nng_aio       *saio;
 	rop            r[NROP];
+	rop            sticky; // its timeout is set once, at creation, and never again
+	bool           sticky_broken;
 	unsigned       rnext;
 	// the most recent survey of this context
 	uint32_t seq, T;
@@ -839,7 +842,7 @@ typedef struct cthr {
 	long dlv[K_N], ops[OP_N], dirs[D_N], surveys, estate_never, estate_expired, estate_ambiguous, deadline_timeouts, own_timeouts, clamp_by[4], cancelled_by_send,
 	    completed_before_send, cancel_won, cancel_lost, must_checked, must_rounds, after_taint[3], fresh_probes, expiry_probe_msgs, idle_expiries, lost_unconfirmed, multi_posted, multi_timeouts, multi_msgs, multi_cancelled, sync_recvs, sync_res[4],
 	    nonblock_recvs, nonblock_again, nonblock_msgs, rcvtimeo_own, rcvtimeo_clamped, opt_changes, opt_change_deadlines, huge_rounds, huge_msgs, surveys_by_tm[TM_N], deadline_by_tm[TM_N],
-	    old_before_new;
+	    old_before_new, sticky_clamped, sticky_unclamped_after_clamped, sticky_rounds;
 	bool dlv_seen[OP_N][K_N], res_seen[OP_N][D_N][4];
 } cthr;
 
@@ -940,6 +943,36 @@ r_start(cthr *t, rcv *rc, int tmo, const nng_ctx *other)
 	}
 }
 
+// re-submit the aio whose timeout was set once; nothing about the aio is
+// touched between operations, as an application with one long-lived aio does
+static void
+r_start_sticky(cthr *t, rcv *rc)
+{
+	rop *o = &t->sticky;
+	pthread_mutex_lock(&o->m);
+	if (!o->done) vf_harness_fail("reused aio still busy");
+	o->done = false;
+	pthread_mutex_unlock(&o->m);
+	memset(rc, 0, sizeof(*rc));
+	rc->o = o;
+	rc->tmo = rc->tmo_eff = STICKY_MS;
+	rc->seq = t->seq;
+	rc->T = t->T;
+	rc->t_call = t->t_call;
+	rc->t_ret = t->t_ret;
+	rc->tainted = t->tainted;
+	rc->opt_changed = t->opt_changed;
+	rc->t_rcall = vf_now_ns();
+	if (t->is_sock) {
+		nng_socket_recv(t->sock, o->aio);
+	} else {
+		nng_ctx_recv(t->ctx, o->aio);
+	}
+	rc->t_rstarted = vf_now_ns();
+	if (t->nrecv++ == 0) t->first_rstart = rc->t_rstarted;
+	t->last_rstart = rc->t_rstarted;
+}
+
 static void
 r_cancel(rcv *rc)
 {
@@ -985,6 +1018,7 @@ r_wait(cthr *t, rcv *rc, nng_msg **mp)
 		    opname[t->op], rc->tmo, (unsigned long long) ((rc->t_rcall - rc->t_call) / MS), rc->seq, rc->T, 2 * BOUND_MS);
 		nng_aio_cancel(o->aio);
 		rc->cancelled = true;
+		if (o == &t->sticky) t->sticky_broken = true; // do not pay the watchdog again
 		pthread_mutex_lock(&o->m);
 		while (!o->done) pthread_cond_wait(&o->cv, &o->m);
 	}
@@ -1506,7 +1540,7 @@ ctx_thread(void *arg)
 			static const nng_duration tv[6] = { NNG_DURATION_INFINITE, 15, 60, 150, 400, 20000 };
 			set_rcvtimeo(t, tv[vf_below(r, 6)]);
 		}
-		int      op = k < 26 ? OP_COLLECT : k < 38 ? OP_MIXED : k < 56 ? OP_SUPERSEDE : k < 66 ? OP_SENDOVER : k < 76 ? OP_SENDOVER_DL : k < 84 ? OP_ABORT : OP_QUICK;
+		int      op = k < 26 ? OP_COLLECT : k < 38 ? OP_MIXED : k < 56 ? OP_SUPERSEDE : k < 66 ? OP_SENDOVER : k < 76 ? OP_SENDOVER_DL : k < 84 ? OP_ABORT : k < 92 && t->tmode != TM_DEFAULT && !t->sticky_broken ? OP_REUSED : OP_QUICK;
 		t->op = op;
 		t->ops[op]++;
 		switch (op) {
@@ -1589,6 +1623,27 @@ ctx_thread(void *arg)
 			} else {
 				collect(t, false, 1);
 			}
+			break;
+		}
+		case OP_REUSED: {
+			// One aio, timeout (20 ms) set once.  First a receive so late in a
+			// survey that it is cut to the survey deadline, then - after a
+			// pause, so that no expiry of the first is still in flight - a
+			// receive right at the start of the next survey, whose own 20 ms
+			// are far less than the survey time: it must time out by itself.
+			t->sticky_rounds++;
+			if (t_send(t, D_SILENT, vf_range(r, 60, 120)) != 0) break;
+			uint64_t at = t->t_call + (uint64_t) t->T * MS - 8 * MS;
+			while (vf_now_ns() < at) vf_usleep(200);
+			r_start_sticky(t, &rc);
+			int  rv1 = r_finish(t, &rc);
+			bool clamped = rv1 != NNG_ESTATE && rc.t_rcall + STICKY_MS * MS > rc.t_ret + (uint64_t) rc.T * MS;
+			if (clamped) t->sticky_clamped++;
+			vf_msleep(25);
+			if (t_send(t, D_SILENT, vf_range(r, 150, 300)) != 0) break;
+			r_start_sticky(t, &rc);
+			int rv2 = r_finish(t, &rc);
+			if (clamped && rv2 == NNG_ETIMEDOUT) t->sticky_unclamped_after_clamped++;
 			break;
 		}
 		case OP_ABORT: {
@@ -1732,6 +1787,8 @@ run_case(long idx, const casecfg *cc)
 			if (!t->is_sock && (rv = nng_ctx_open(&t->ctx, surv)) != 0) vf_harness_fail("ctx open: %s", nng_strerror(rv));
 			if (nng_aio_alloc(&t->saio, NULL, NULL) != 0) vf_harness_fail("aio alloc");
 			for (int j = 0; j < NROP; j++) rop_init(&t->r[j]);
+			rop_init(&t->sticky);
+			nng_aio_set_timeout(t->sticky.aio, STICKY_MS); // once
 		}
 	}
 	for (int i = 0; i < cc->nctx; i++) {
@@ -1743,6 +1800,7 @@ run_case(long idx, const casecfg *cc)
 	// receive aios first (this waits for an expiry in flight), then contexts
 	for (int i = 0; i < cc->nctx; i++) {
 		for (int j = 0; j < NROP; j++) rop_fini(&th[i].r[j]);
+		rop_fini(&th[i].sticky);
 		nng_aio_free(th[i].saio);
 	}
 	for (int i = 0; i < cc->nctx; i++) {
@@ -1816,6 +1874,10 @@ run_case(long idx, const casecfg *cc)
 		vf_stat("after_own_timeout_estate", t->after_taint[1]);
 		vf_stat("after_own_timeout_timeout", t->after_taint[2]);
 		vf_stat("fresh_ctx_probes", t->fresh_probes);
+		vf_stat("reused_aio_rounds", t->sticky_rounds);
+		vf_stat("reused_aio_receive_clamped_to_deadline", t->sticky_clamped);
+		vf_stat("reused_aio_own_timeout_after_clamped_receive", t->sticky_unclamped_after_clamped);
+		if (t->sticky_unclamped_after_clamped) vf_class("reused-aio/%s/own-timeout-after-clamped", t->is_sock ? "sock" : "ctx");
 		vf_stat("multi_receives_posted", t->multi_posted);
 		vf_stat("multi_receives_timed_out_together", t->multi_timeouts);
 		vf_stat("multi_receives_got_message", t->multi_msgs);
